@@ -8,6 +8,7 @@
     every generated case inside the domain of the statement (representable, admissible)."""
 import os
 import shutil
+import sys
 import tempfile
 
 import rowgen
@@ -122,6 +123,37 @@ def mutate_cells(rng, cells, names):
         if k not in seen:
             seen.add(k)
             out.append((k, v))
+    return out
+
+
+def alias_cells(rng, cells, rtype, cx, desc):
+    """the alias stream (FX7, finding C04/webhook-body-shadowed): a second header that is re-keyed to a field the row
+    already has a cell for (short/long spelling: message_text <-> the main argument of the row type — webhook.body in a
+    call_webhook row —, _nodeId <-> node_uuid, ...), with a blank cell (60 %) or a text, before or after the
+    original.  None when the row has no aliasable cell."""
+    f2h = desc[4]
+    main = cx["sw_table"].get(rtype)
+    pairs = []
+    for k, _ in cells:
+        if k == cx["sw_header"] and main:
+            pairs.append((k, main))
+        elif main and k == main:
+            pairs.append((k, cx["sw_header"]))
+        for long, short in f2h.items():
+            if short != cx["sw_header"] and long != short:
+                if k == short:
+                    pairs.append((k, long))
+                elif k == long:
+                    pairs.append((k, short))
+    pairs = [(k, a) for (k, a) in pairs if a not in dict(cells)]
+    if not pairs:
+        return None
+    k, alias = rng.choice(pairs)
+    i = [h for h, _ in cells].index(k)
+    val = "" if rng.random() < 0.6 else rowgen.rand_text(rng, [k, alias], 6)
+    out = list(cells)
+    pos = rng.randint(0, i) if rng.random() < 0.4 else rng.randint(i + 1, len(cells))
+    out.insert(pos, (alias, val))
     return out
 
 
@@ -272,6 +304,9 @@ def run(ctx):
     nontrivial = set()
     samples = []
 
+    keeps_blank = join_keeps_blank_last()
+    stats["probe_join_keeps_blank_last"] = keeps_blank
+
     # ------------------------------------------------ generic family
     batch = []
     dom_batch = []      # (case, python in_domain, implementation round trip ok, request) for the theorem's domain
@@ -293,7 +328,11 @@ def run(ctx):
             stats["generator_rejects"] = stats.get("generator_rejects", 0) + 1
             continue
         dom = (not X) and rowgen.in_domain(t, val, [], T)
+        # the same without blank str values in packed models: the theorem's domain on a tree whose join drops an
+        # empty last element
+        dom_nb = dom and rowgen.in_domain(t, val, [], T, blank_values=False)
         stats["in_domain" if dom else "out_of_domain"] += 1
+        stats["in_domain_packed_blank_value"] = stats.get("in_domain_packed_blank_value", 0) + (dom and not dom_nb)
         if un[0] != "ok":
             stats["impl_unparse_error"] += 1
         elif back[0] != "ok":
@@ -306,7 +345,19 @@ def run(ctx):
                 raw = run_cli_mode(lambda: rowlib.natives(parser.parse_row(parser.unparse_row(inst, set(T), set(X)), {})))
                 ok = raw[0] == "ok" and _deep_eq(raw[1], val)
             if not ok:
-                v.failing_input("generic-roundtrip",
+                key = "generic-roundtrip"
+                if not dom_nb:
+                    # causal classification: the same instance with the blank str fields of its packed models filled
+                    # is inside the narrower domain and round-trips
+                    val2 = fill_packed_blanks(t, val, [], T)
+                    try:
+                        if rowgen.in_domain(t, val2, [], T, blank_values=False):
+                            _, _, un2, back2 = impl_case(t, val2, T, X)
+                            if un2[0] == "ok" and back2[0] == "ok" and _deep_eq(back2[1], val2):
+                                key = "packed-model-blank-value-under-nonblank-default"
+                    except Exception:
+                        pass
+                v.failing_input(key,
                                 f"parse_row(unparse_row(m, L)) != m: model={rowlib.e_ty(t)[:0]}{_show_ty(t)} value={val!r} targets={T} -> cells={un[1] if un[0]=='ok' else un} back={back}",
                                 dict(fn="generic", ty=_jsonable_ty(t), value=val, targets=T, excluded=X))
             if un[0] == "ok":
@@ -324,7 +375,7 @@ def run(ctx):
                 continue
             if not X:
                 rt_ok = un[0] == "ok" and back[0] == "ok" and _deep_eq(back[1], val)
-                dom_batch.append((dict(model=_show_ty(t), value=val, targets=T), dom, rt_ok,
+                dom_batch.append((dict(model=_show_ty(t), value=val, targets=T), dom if keeps_blank else dom_nb, rt_ok,
                                   dict(fn="generic", ty=_jsonable_ty(t), value=val, targets=T, excluded=X),
                                   f"(107 6 {rm} {ev} {rowlib.e_strs(T)})"))
             reqs = [f"(107 2 {rm} {ev} {rowlib.e_strs(T)} {rowlib.e_strs(X)})"]
@@ -351,7 +402,7 @@ def run(ctx):
         flush_domain(ctx, m, dom_batch, stats)
 
     # ------------------------------------------------ the witnesses of the _refuted theorems, on the implementation
-    probe_refutations(ctx, stats)
+    probe_refutations(ctx, stats, keeps_blank)
     probe_column_orders(ctx, stats)
 
     # ------------------------------------------------ matches_headers on its own
@@ -378,6 +429,17 @@ def run(ctx):
     run_flow(ctx, stats, nontrivial, samples, RowParser, CellParser, RowDataSheet, SheetParser, FlowRowModel,
              CSVSheetReader, XLSXSheetReader)
 
+    # ------------------------------------------------ sessions: operation sequences on long-lived classes / parsers
+    # (after the older streams, so that they see the random choices they saw before this stream existed)
+    import c07_sessions
+    c07_sessions.run_sessions(ctx, stats)
+
+    # ------------------------------------------------ one cell text through an xlsx file (FX7; last)
+    run_xlsx_cells(ctx, stats)
+
+    # ------------------------------------------------ which headers become columns of an exported sheet (FX7)
+    run_sheet_headers(ctx, stats)
+
     ctx.stats["c07"] = stats
     v.coverage["distinct_nontrivial"] = len(nontrivial)
     v.coverage["rule"] = (
@@ -388,7 +450,15 @@ def run(ctx):
         "also perturbed (dropped/swapped columns, bad indices, annotations, * headers, random cell text) into a "
         "malformed parse stream; flow rows generated per row type through the regenerated tables and through csv/xlsx "
         "files. non-trivial = distinct in-domain case whose layout packs something, renames a field, or whose cells "
-        "contain a separator, backslash or newline")
+        "contain a separator, backslash or newline. SESSIONS (harness/c07_sessions.py; distribution in stats.c07.sessions): "
+        "families of classes (roots, classes derived from an earlier class that override defaults/types, add fields, "
+        "re-define the renaming functions in conflict with the base or inherit them, shared sub-model classes, unrelated "
+        "classes with the same __name__ and field names) and sequences of 3-14 operations (round trip, unparse with "
+        "excluded headers, parse of rows written for this or another class or malformed, templated rows with {{ }} and "
+        "native {@ @} cells, csv export + re-read, a new RowParser) on ONE long-lived set of classes / RowParsers / "
+        "CellParser; values take the defaults other classes of the family have for a field of the same name; every "
+        "step is compared with the same operation on objects built afresh, with the extracted state machine "
+        "run_session, and (in-domain) with the instance written")
     v.coverage["samples"] = samples[:5]
     v.assumptions += [
         "cells contain no Jinja template opener ({{ {% {#): the model's cell parser is CellParser.parse without templating",
@@ -397,6 +467,148 @@ def run(ctx):
         "pydantic-v1 construction modelled on the trees the parser can produce (defaults filled, None rejected below the top level)",
         "tablib/openpyxl/csv are not modelled: the file legs are oracle-only",
     ]
+
+
+def _rowfix_tables():
+    import importlib.util
+    here = os.path.dirname(os.path.abspath(__file__))
+    sys.path.insert(0, os.path.join(here, "..", "translator"))
+    try:
+        spec = importlib.util.spec_from_file_location("tables_rowfix", os.path.join(here, "..", "translator", "tables_rowfix.py"))
+        mod = importlib.util.module_from_spec(spec)
+        spec.loader.exec_module(mod)
+        return mod
+    finally:
+        sys.path.pop(0)
+
+
+def join_keeps_blank_last():
+    """the translator's probe (does join_from_lists keep an empty last element by a trailing separator?); None when
+    the translator refuses the tree.  Used for correspondence only — which domain the theorem has on this tree, which
+    cells its witness states —, never by the oracle."""
+    try:
+        return bool(_rowfix_tables()._probe_join([]))
+    except Exception:
+        return None
+
+
+def fill_packed_blanks(t, v, comps, T, packed=False):
+    """the instance with every blank str field (non-blank default) of a PACKED model node set to "z" (the counterfactual
+    of finding packed-model-blank-value-under-nonblank-default).  A node is packed when a target header matches it or
+    when it is the value of a renamed field (unparse_row writes a renamed field into one cell)."""
+    k = t[0]
+    if k == "model":
+        packed = packed or rowgen.matches(comps, T)
+        out = {}
+        for (n, ft, d) in t[2]:
+            h = t[4].get(n, n)
+            if packed:
+                out[n] = "z" if ft[0] == "str" and v[n] == "" and d != "" else v[n]
+            elif h == n:
+                out[n] = fill_packed_blanks(ft, v[n], comps + [h], T)
+            else:
+                out[n] = fill_packed_blanks(ft, v[n], comps + [h], T, packed=True)
+        return out
+    if k == "list" and not packed and not rowgen.matches(comps, T):
+        return [fill_packed_blanks(t[1], x, comps + [str(i + 1)], T) for i, x in enumerate(v)]
+    return v
+
+
+def is_formula_text(s):
+    """what openpyxl stores as a formula: a str of two or more characters that starts with '='"""
+    return len(s) > 1 and s.startswith("=")
+
+
+def run_xlsx_cells(ctx, stats):
+    """The xlsx cell stream (FX7, finding xlsx-cell-starting-with-equals-sign): representable cell texts — a third of them
+    of the form '=…' — written by RowDataSheet.export(..., 'xlsx') next to an id cell, read by XLSXSheetReader.
+    Oracle: every text comes back as written.  Correspondence: Io/XlsxCell.v (engine 107 fn 10) says the same."""
+    v, rng, m = ctx.v, ctx.rng, ctx.model
+    n = (400 if ctx.tier == "thorough" else 60) * ctx.scale
+    texts = ["=2+2 is four", "=", "==", "a=b"]
+    while len(texts) < n:
+        t = rowgen.good_text(rng)
+        if rng.random() < 0.33:
+            t = ("=" + t).strip()
+        texts.append(t)
+    stats["xlsx_cells"] = len(texts)
+    stats["xlsx_formula_texts"] = sum(is_formula_text(t) for t in texts)
+    v.coverage["evaluations"] += len(texts)
+    r = run_cli_mode(lambda: _rowfix_tables().xlsx_cells_roundtrip(texts))
+    if r[0] != "ok":
+        v.failing_input("file-roundtrip-xlsx", f"xlsx export/read of one-cell rows fails: {r!r}"[:2000],
+                        dict(fn="xlsx_cells", texts=texts))
+        return
+    back = r[1]
+    lost = [(t, b) for t, b in zip(texts, back) if b != t]
+    formulas = [(t, b) for t, b in lost if is_formula_text(t) and b == ""]
+    other = [tb for tb in lost if tb not in formulas]
+    if formulas:
+        v.failing_input("xlsx-cell-starting-with-equals-sign",
+                        f"{len(formulas)} cell text(s) of the form '=…' come back empty from an xlsx file, e.g. {formulas[:4]!r}",
+                        dict(fn="xlsx_cells", texts=[t for t, _ in formulas][:8]))
+    if other:
+        v.failing_input("file-roundtrip-xlsx", f"cell texts changed by the xlsx file: {other[:6]!r}",
+                        dict(fn="xlsx_cells", texts=[t for t, _ in other][:8]))
+    if m:
+        outs = model_ask(m, [f"(107 10 {rowlib.e_str(t)})" for t in texts])
+        for t, b, o in zip(texts, back, outs):
+            mo = rowlib.d_str(o) if isinstance(o, list) and all(isinstance(c, int) for c in o) else None
+            if mo is None:
+                ctx.disagree("xlsx cell: model could not decode the request", t, o, b)
+            elif mo != (b if b is not None else ""):
+                ctx.disagree("xlsx cell text read back", t, mo, b)
+
+
+def run_sheet_headers(ctx, stats):
+    """The header stream (FX7, finding single-column-sheet-export-crashes): sheets of 0-4 rows of a four-field model,
+    each row writing a random subset of the fields (40 % of the rows a single one).  Oracle: every header a row writes is
+    a column of the sheet RowDataSheet builds (and the table can be built at all).  Correspondence: Io/SheetHeaders.v
+    (engine 107 fn 11) gives the same set of columns."""
+    v, rng, m = ctx.v, ctx.rng, ctx.model
+    n = (600 if ctx.tier == "thorough" else 80) * ctx.scale
+    names = ["a", "b", "c", "d"]
+    sheets = [[["b"], ["b"]], [["a", "b"], ["c"]], [["d"]]]
+    while len(sheets) < n:
+        rows = []
+        for _ in range(rng.choice([0, 1, 1, 2, 2, 3, 4])):
+            k = 1 if rng.random() < 0.4 else rng.choice([0, 2, 2, 3, 4])
+            rows.append(sorted(rng.sample(names, k)))
+        sheets.append(rows)
+    stats["header_sheets"] = len(sheets)
+    stats["header_sheets_with_one_column_row"] = sum(any(len(r) == 1 for r in sh) for sh in sheets)
+    try:
+        probe = _rowfix_tables().sheet_header_set
+    except Exception as e:
+        v.failing_input("file-roundtrip-csv", f"the header probe cannot be loaded: {e!r}", dict(fn="headers", sheets=[]))
+        return
+    got = []
+    lost = []
+    for sh in sheets:
+        v.coverage["evaluations"] += 1
+        r = run_cli_mode(lambda: probe(sh))
+        got.append(r)
+        want = sorted({h for row in sh for h in row})
+        if r[0] != "ok" or r[1] != want:
+            lost.append((sh, r))
+    if lost:
+        single = [x for x in lost if any(len(row) == 1 for row in x[0])]
+        other = [x for x in lost if x not in single]
+        if single:
+            v.failing_input("single-column-sheet-export-crashes",
+                            f"{len(single)} sheet(s) with a one-column row lack the header of that row, e.g. {single[:3]!r}",
+                            dict(fn="headers", sheets=[x[0] for x in single][:6]))
+        if other:
+            v.failing_input("file-roundtrip-csv", f"sheets whose columns are not the headers their rows write: {other[:3]!r}",
+                            dict(fn="headers", sheets=[x[0] for x in other][:6]))
+    if m:
+        outs = model_ask(m, ["(107 11 (" + " ".join(rowlib.e_strs(row) for row in sh) + "))" for sh in sheets])
+        for sh, r, o in zip(sheets, got, outs):
+            mo = sorted(rowlib.d_str(x) for x in o) if isinstance(o, list) and all(isinstance(x, list) for x in o) else None
+            if mo is None:
+                ctx.disagree("sheet headers: model could not decode the request", sh, o, r)
+            elif r[0] != "ok" or mo != r[1]:
+                ctx.disagree("sheet headers (as a set)", sh, mo, r)
 
 
 def flush_domain(ctx, m, dom_batch, stats, key="generic-roundtrip", what="row_dom"):
@@ -477,7 +689,7 @@ def probe_column_orders(ctx, stats):
         ctx.disagree("column-order witness: the theorem says parse_row fails for u.2 before u.1", "ex", "Err EAssert", bad)
 
 
-def probe_refutations(ctx, stats):
+def probe_refutations(ctx, stats, keeps_blank=None):
     """Replays the witnesses of C07_*_refuted on the real RowParser: the implementation must do
     what the theorems say the model does.  The one witness that lies inside the domain of the
     property TEXT (a blank value under a non-blank default in a packed model) is a failing
@@ -495,16 +707,23 @@ def probe_refutations(ctx, stats):
             if un[0] == "ok":
                 ctx.disagree("refutation witness: the theorem says unparse_row fails", name, "Err EJoin", un)
             continue
+        if name == "packed_blank":
+            # ORACLE (the instance is inside the domain of the property text): it must come back
+            if un[0] != "ok" or back[0] != "ok" or not _deep_eq(back[1], val):
+                ctx.v.failing_input("packed-model-blank-value-under-nonblank-default",
+                                    f"model={_show_ty(t)} value={val!r} targets={T} -> cells={un!r} -> back={back!r}",
+                                    dict(fn="generic", ty=_jsonable_ty(t), value=val, targets=T, excluded=[]))
+            # CORRESPONDENCE with C07_packed_blank_decided, whose branch the translator's probe selects
+            if keeps_blank is None:
+                continue
+            if keeps_blank:
+                cells, back_want = [("k", "q"), ("s", "a;;|")], val
         if un[0] != "ok" or un[1] != cells:
             ctx.disagree("refutation witness: cells", name, cells, un)
             continue
         if back[0] != "ok" or not _deep_eq(back[1], back_want):
             ctx.disagree("refutation witness: instance read back", name, back_want, back)
             continue
-        if name == "packed_blank":
-            ctx.v.failing_input("packed-model-blank-value-under-nonblank-default",
-                                f"model={_show_ty(t)} value={val!r} targets={T} -> cells={cells} -> back={back[1]!r}",
-                                dict(fn="generic", ty=_jsonable_ty(t), value=val, targets=T, excluded=[]))
 
 
 def flush_generic(ctx, m, batch, stats):
@@ -555,6 +774,7 @@ def run_flow(ctx, stats, nontrivial, samples, RowParser, CellParser, RowDataShee
     n_files = (400 if thorough else 40) * ctx.scale
     fstats = {"rows": 0, "in_domain": 0, "by_type": {}, "strip_uuids": 0, "file_csv": 0, "file_xlsx": 0, "multi_row_sheets": 0}
     batch = []
+    alias_batch = []
     flow_dom_batch = []
     good_rows = []
     for i in range(n_flow):
@@ -599,6 +819,14 @@ def run_flow(ctx, stats, nontrivial, samples, RowParser, CellParser, RowDataShee
                 stats["malformed_cells"] += 1
                 stats["malformed_parse_ok"] += badr[0] == "ok"
             batch.append((desc, val, T, X, un, back, bad, badr, reqs))
+            if un[0] == "ok" and rng.random() < 0.5:
+                al = alias_cells(rng, un[1], val["type"], cx, desc)
+                if al is not None:
+                    alr = impl_parse(parser, al)
+                    fstats["alias_rows"] = fstats.get("alias_rows", 0) + 1
+                    fstats["alias_blank_after"] = fstats.get("alias_blank_after", 0) + any(
+                        v2 == "" and h2 not in dict(un[1]) and i2 > 0 for i2, (h2, v2) in enumerate(al))
+                    alias_batch.append((al, alr))
             if len(batch) >= 300:
                 flush_generic(ctx, m, batch, stats)
                 batch = []
@@ -606,20 +834,51 @@ def run_flow(ctx, stats, nontrivial, samples, RowParser, CellParser, RowDataShee
             samples.append(dict(flow_row_cells=un[1]))
     if m and batch:
         flush_generic(ctx, m, batch, stats)
+    if m and alias_batch:
+        # correspondence of parse_row on rows in which two headers denote one field (the model's rekey_put)
+        outs = model_ask(m, [f"(107 4 {rowlib.e_cells(al)})" for al, _ in alias_batch])
+        for (al, alr), o in zip(alias_batch, outs):
+            mp = norm_res(o, rowlib.d_value)
+            case = dict(model="FlowRowModel", cells=al, stream="alias")
+            if mp[0] == "err" and mp[1] == rowlib.ERR_UNSUPPORTED:
+                stats["model_unsupported"] += 1
+            elif mp[0] == "bad":
+                ctx.disagree("parse_row (alias row): model could not decode the request", case, mp, alr)
+            elif (mp[0] == "ok") != (alr[0] == "ok"):
+                ctx.disagree("parse_row (alias row) ok/error", case, mp, alr)
+            elif mp[0] == "ok" and not _deep_eq(mp[1], alr[1]):
+                ctx.disagree("parse_row (alias row) instance", case, mp[1], alr[1])
     if m and flow_dom_batch:
         flush_domain(ctx, m, flow_dom_batch, fstats, key="flow-roundtrip", what="flow_dom")
 
     # ---- through files: RowDataSheet.export -> reader -> SheetParser -> parse_row
     scratch = tempfile.mkdtemp(prefix="rpftc07")
+    # directed: the rows of every file-leg entry of findings.d/C07.json (open and fixed alike), every run, both formats
+    directed = []
     try:
-        for j in range(min(n_files, len(good_rows))):
-            multi = j % 4 == 3
-            rows = [good_rows[j]] if not multi else [good_rows[(j * 7 + k) % len(good_rows)] for k in range(3)]
+        import json
+        fj = os.path.join(os.path.dirname(os.path.abspath(__file__)), "..", "findings.d", "C07.json")
+        for f in json.load(open(fj))["findings"]:
+            rp = f.get("replay") or {}
+            if rp.get("fn") == "file":
+                FlowRowModel(**rp["rows"][0])
+                directed.append(rp["rows"])
+    except Exception:
+        directed = []
+    fstats["directed_file_sheets"] = len(directed)
+    try:
+        for j in range(-len(directed), min(n_files, len(good_rows))):
+            if j < 0:
+                rows = directed[j]
+                multi = len(rows) > 1
+            else:
+                multi = j % 4 == 3
+                rows = [good_rows[j]] if not multi else [good_rows[(j * 7 + k) % len(good_rows)] for k in range(3)]
             fstats["multi_row_sheets"] += multi
             insts = [FlowRowModel(**r) for r in rows]
             T, X = layouts[False]
             for fmt in ("csv", "xlsx"):
-                d = os.path.join(scratch, f"s{j}{fmt}")
+                d = os.path.join(scratch, f"s{j}{fmt}".replace("-", "d"))
                 os.makedirs(d)
                 v.coverage["evaluations"] += 1
                 fstats["file_" + fmt] += 1
@@ -661,22 +920,52 @@ def file_failure_class(desc, rows, r, fmt, multi, parser, insts, T, X):
             if h not in headers:
                 headers.append(h)
 
-    def predicted(eq):
+    # the column order of the sheet itself (a topological order of the rows' header chains): with a row context a
+    # blank padding cell can be re-keyed onto a column the row did write (message_text -> webhook.body for a
+    # call_webhook row), and then WHICH of the two comes later decides what is read
+    from rpft.parsers.common.rowdatasheet import RowDataSheet
+    sheet_order = run_cli_mode(lambda: RowDataSheet(parser, insts, set(T), set(X))._get_headers())
+    sheet_order = sheet_order[1] if sheet_order[0] == "ok" and sorted(sheet_order[1]) == sorted(headers) else None
+
+    def predicted(eq, order):
         out = []
         for d in dicts:
             cells = {h: d.get(h, "") for h in headers}
             if eq:
                 cells = {h: ("" if s.startswith("=") and len(s) > 1 else s) for h, s in cells.items()}
-            # column order inside one row does not matter for these rows (C07-3), only list order
-            cells = dict(sorted(cells.items(), key=lambda kv: [int(c) if c.isdigit() else 0 for c in kv[0].split(".")]))
+            if order is None:
+                # column order inside one row does not matter for these rows (C07-3), only list order
+                cells = dict(sorted(cells.items(), key=lambda kv: [int(c) if c.isdigit() else 0 for c in kv[0].split(".")]))
+            else:
+                cells = {h: cells[h] for h in order}
             p = impl_parse(parser, list(cells.items()))
             out.append(p[1] if p[0] == "ok" else None)
         return out
 
-    if multi and all(a is not None and _deep_eq(a, b) for a, b in zip(predicted(False), r[1])):
+    orders = [None] + ([sheet_order] if sheet_order is not None else [])
+
+    def rekey_collision():
+        """some row has two columns of the sheet that the row context re-keys to the SAME field, with different
+        cells (its own column and the blank padding of a column other rows use)"""
+        for d in dicts:
+            cells = {h: d.get(h, "") for h in (sheet_order or headers)}
+            seen = {}
+            for h, s in cells.items():
+                k = run_cli_mode(lambda: parser.model.header_name_to_field_name_with_context(h, cells))
+                if k[0] != "ok":
+                    continue
+                if k[1] in seen and seen[k[1]] != s:
+                    return True
+                seen[k[1]] = s
+        return False
+
+    if multi and sheet_order is not None and rekey_collision() \
+            and all(a is not None and _deep_eq(a, b) for a, b in zip(predicted(fmt == "xlsx", sheet_order), r[1])):
+        return "sheet-padding-cell-rekeyed-onto-written-column"
+    if multi and any(all(a is not None and _deep_eq(a, b) for a, b in zip(predicted(False, o), r[1])) for o in orders):
         return "sheet-padding-cells-become-list-elements"
     if fmt == "xlsx" and any(s.startswith("=") and len(s) > 1 for d in dicts for s in d.values()):
-        if all(a is not None and _deep_eq(a, b) for a, b in zip(predicted(True), r[1])):
+        if any(all(a is not None and _deep_eq(a, b) for a, b in zip(predicted(True, o), r[1])) for o in orders):
             return "xlsx-cell-starting-with-equals-sign"
     return f"file-roundtrip-{fmt}"
 
@@ -762,6 +1051,9 @@ def replay(rep):
     from rpft.parsers.sheets import CSVSheetReader, XLSXSheetReader
 
     r = rep["replay"]
+    if r["fn"] in ("session", "sessions"):
+        import c07_sessions
+        return c07_sessions.replay_session(r)
     if r["fn"] == "order":
         class _V:
             coverage = {"evaluations": 0}
@@ -793,6 +1085,17 @@ def replay(rep):
         print("cells:", un)
         print("back :", back)
         return un[0] == "ok" and back[0] == "ok" and _deep_eq(back[1], erase_excluded(flow_desc(), r["value"], X))
+    if r["fn"] == "headers":
+        ok = True
+        for sh in r["sheets"]:
+            got = run_cli_mode(lambda: _rowfix_tables().sheet_header_set(sh))
+            print("rows", sh, "->", got)
+            ok = ok and got[0] == "ok" and got[1] == sorted({h for row in sh for h in row})
+        return ok
+    if r["fn"] == "xlsx_cells":
+        got = run_cli_mode(lambda: _rowfix_tables().xlsx_cells_roundtrip(r["texts"]))
+        print("read back:", got)
+        return got[0] == "ok" and got[1] == r["texts"]
     if r["fn"] == "file":
         parser = RowParser(FlowRowModel, CellParser())
         d = tempfile.mkdtemp(prefix="rpftc07r")
